@@ -5,7 +5,7 @@ Seeded-change bookkeeping (development tool, not a registered check).
   seeded.py confirm <name> <worktree> <property>   confirm a sub-agent's change in its scratch worktree (build, existing
                                                    tests pass with it, demo fails with it and passes without it) and store it
                                                    as /verif/seeded/<name>/{patch.diff, demo file, MUTANT.md, meta.json}
-  seeded.py run <name> <Cxx> [<Cxx> ...]           apply the stored patch to /repo, run the quick checks, undo, record verdicts
+  seeded.py run <name> <Cxx> [<Cxx> ...] | ALL     apply the stored patch to /repo, run the quick checks, undo, record verdicts
 """
 import json, os, shutil, subprocess, sys, time
 
@@ -106,6 +106,7 @@ if __name__ == "__main__":
     if len(a) == 4 and a[0] == "confirm":
         sys.exit(confirm(a[1], a[2], a[3]))
     if len(a) >= 3 and a[0] == "run":
-        sys.exit(run(a[1], a[2:]))
+        props = ["C%02d" % i for i in range(1, 21)] if a[2:] == ["ALL"] else a[2:]
+        sys.exit(run(a[1], props))
     print(__doc__)
     sys.exit(2)
